@@ -137,7 +137,9 @@ class PaneBase:
             if name not in fields or not fields[name].init:
                 raise TypeError(f"{self.__class__.__name__}.__replace__() got an unexpected keyword argument '{name}'")
         # the changes are converted as the constructor would; every other field is carried over as it is
-        handlers = self.__pane_info__.opts.class_handlers or None
+        # (the handlers of this class are class-level handlers: a nested dataclass' own handlers come first)
+        handlers = ConverterHandlers(class_local=tuple(self.__pane_info__.opts.class_handlers)) \
+            if self.__pane_info__.opts.class_handlers else None
         d = {name: getattr(self, name) for name in fields if hasattr(self, name)}
         for (name, val) in changes.items():
             field = fields[name]
@@ -615,8 +617,10 @@ def _make_init(cls: t.Type[PaneBase], fields: t.Sequence[Field]):
                         # the field's own converter, as when converting from data
                         val = f.converter.convert(val)
                     else:
-                        # with the handlers of this class (`custom=`, own or inherited), as when converting from data
-                        val = convert(val, f.type, custom=self.__pane_info__.opts.class_handlers or None)
+                        # with the handlers of this class (`custom=`, own or inherited), as when converting from data:
+                        # as class-level handlers, which a nested dataclass' own handlers override
+                        class_handlers = self.__pane_info__.opts.class_handlers
+                        val = convert(val, f.type, custom=ConverterHandlers(class_local=tuple(class_handlers)) if class_handlers else None)  # type: ignore
                 set_fields.add(f.name)
             elif f.default is not _MISSING:
                 val = f.default
